@@ -91,12 +91,28 @@ def run(ctx):
     # 2. the real store: gated schedules + seeded concurrent programs under the race detector
     lin_path = os.path.join(ctx.work, "lin.ndjson")
     nprog = int(os.environ.get("VERIF_C08_PROGRAMS", "40" if ctx.quick else "400"))
-    rep = ctx.go_driver("storeconc", race=True, timeout=1500 if ctx.quick else 3600,
-                        env={"VERIF_LIN_OUT": lin_path, "VERIF_PROGRAMS": nprog,
-                             "VERIF_BIG_W": 16 if ctx.quick else 32})
-    c = rep.get("counters", {})
-    drv = ctx.cov["drivers"][-1]
+    denv = {"VERIF_LIN_OUT": lin_path, "VERIF_PROGRAMS": nprog, "VERIF_BIG_W": 16 if ctx.quick else 32}
+    n_inc = len(ctx.inconclusives)
+    rep = ctx.go_driver("storeconc", race=True, timeout=1500 if ctx.quick else 3600, env=denv)
     log_path = os.path.join(ctx.work, "driver_storeconc_%d.log" % (len(ctx.cov["drivers"]) - 1))
+    drv = ctx.cov["drivers"][-1]
+    raced = True
+    if drv["rc"] != 0 and not rep.get("counters"):
+        # no report at all: the race-instrumented build of the dependency tree did not finish in time (cold
+        # cache: it takes far longer than the test itself) or the race runtime is unavailable. The property's
+        # own observations do not need the race detector: run again without it and say so.
+        try:
+            txt = open(log_path, errors="replace").read()
+        except OSError:
+            txt = ""
+        if "DATA RACE" not in txt and "--- FAIL" not in txt and "panic:" not in txt:
+            del ctx.inconclusives[n_inc:]
+            ctx.note("race-instrumented build/run of the driver did not complete (rc=%s); re-running without -race" % drv["rc"])
+            rep = ctx.go_driver("storeconc", race=False, timeout=1500 if ctx.quick else 3600, env=denv)
+            log_path = os.path.join(ctx.work, "driver_storeconc_%d.log" % (len(ctx.cov["drivers"]) - 1))
+            raced = False
+    ctx.cover(race_detector_used=raced)
+    c = rep.get("counters", {})
     races = _race_reports(log_path)
     for frames, blk in races:
         mine = [f for f in frames if "celestia-node" in f]
